@@ -1,4 +1,5 @@
 -- Root of the `PdsVerif` library: models, generated definitions, property theorems.
-import PdsVerif.Model
+import PdsVerif.DriverLoop
 import PdsVerif.RealNum
+import PdsVerif.Model.ScalesDrv
 import PdsVerif.Props.C19
